@@ -233,3 +233,86 @@ Definition c05_share_ok (wl : bool) (min0 min1 T d0 d1 r0 r1 : N) (out : res N) 
 Definition chk_C05_lp_share (wl : bool) min0 min1 T d0 d1 r0 r1 (out : res N) : verdict :=
   V (nres_eqb (lp_share wl min0 min1 T d0 d1 r0 r1) out)
     (c05_share_ok wl min0 min1 T d0 d1 r0 r1 out) false (is_ok out).
+
+(* ------------------------------------------------------------------ *)
+(* registry (C16, C19)                                                  *)
+(* ------------------------------------------------------------------ *)
+From HT Require Import Reg.Registry.
+Definition SEP : N := 999999.
+Definition LOOPM : N := 888888.
+Definition bres_eqb := res_eqb (fun a b : bytes => bytes_eqb a b).
+
+(* store of entry indices built the way the harness builds PAIRS (later saves overwrite) *)
+Fixpoint build_store (i : N) (entries : list (bytes * bytes)) (st : @store N) : @store N :=
+  match entries with
+  | [] => st
+  | (a, b) :: rest => build_store (i + 1) rest (store_insert (pair_key a b) i st)
+  end.
+Definition entry_assets (entries : list (bytes * bytes)) (i : N) : bytes * bytes :=
+  nth (N.to_nat i) entries ([], []).
+Definition flatten_pages (pages : list (@store N)) : list N :=
+  concat (map (fun p => map snd p ++ [SEP]) pages).
+Definition model_walk (limit : option N) (entries : list (bytes * bytes)) : list N :=
+  let st := build_store 0 entries [] in
+  flatten_pages (walk (entry_assets entries) (S (length st)) st None limit).
+
+Fixpoint count_occ_N (x : N) (l : list N) : N :=
+  match l with [] => 0 | y :: l => (if x =? y then 1 else 0) + count_occ_N x l end.
+(* longest run between separators *)
+Fixpoint max_page (l : list N) (cur best : N) : N :=
+  match l with
+  | [] => N.max cur best
+  | x :: l => if x =? SEP then max_page l 0 (N.max cur best) else max_page l (cur + 1) best
+  end.
+Definition c19_walk_ok (limit : option N) (entries : list (bytes * bytes)) (out : res (list N)) : bool :=
+  match out with
+  | Ok flat =>
+      let st := build_store 0 entries [] in
+      let visited := filter (fun x => negb (x =? SEP)) flat in
+      (count_occ_N LOOPM flat =? 0) &&
+      (N.of_nat (length visited) =? N.of_nat (length st)) &&
+      forallb (fun e => count_occ_N (snd e) visited =? 1) st &&
+      (max_page flat 0 0 <=? N.of_nat (page_limit limit))
+  | Err _ => false
+  end.
+Definition chk_C19_reg_walk (limit : option N) (entries : list (bytes * bytes)) (out : res (list N)) : verdict :=
+  V (res_eqb nlist_eqb (Ok (model_walk limit entries)) out) (c19_walk_ok limit entries out) false
+    (1 <? N.of_nat (length entries)).
+
+Definition chk_C19_reg_page (limit : option N) (cursor : option N) (swap : bool)
+           (entries : list (bytes * bytes)) (out : res (list N)) : verdict :=
+  let st := build_store 0 entries [] in
+  let c := match cursor with
+           | None => None
+           | Some i => let '(a, b) := entry_assets entries i in Some (if swap then (b, a) else (a, b))
+           end in
+  V (res_eqb nlist_eqb (Ok (map snd (read_pairs st c limit))) out)
+    (match out with Ok l => (N.of_nat (length l) <=? 30) && (N.of_nat (length l) <=? N.of_nat (page_limit limit))
+                  | Err _ => false end)
+    false true.
+
+Definition chk_C16_reg_key (a b : bytes) (out : res bytes) : verdict :=
+  V (bres_eqb (Ok (pair_key a b)) out) true false true.
+(* two identifier sets: the keys coincide only for the same unordered set (else known class) *)
+Definition chk_C16_reg_keyeq (a b c d : bytes) (out1 out2 out3 : res bytes) : verdict :=
+  V (bres_eqb (Ok (pair_key a b)) out1 && bres_eqb (Ok (pair_key c d)) out2 && bres_eqb (Ok (pair_key b a)) out3)
+    (match out1, out2, out3 with
+     | Ok k1, Ok k2, Ok k3 => bytes_eqb k1 k3 && (if bytes_eqb k1 k2 then same_set a b c d else true)
+     | _, _, _ => false
+     end)
+    (kf_key_collision a b c d) true.
+(* lookup of (q1,q2) in a registry of entries: the record found must be one whose set is the queried set *)
+Definition chk_C16_reg_lookup (q1 q2 : bytes) (entries : list (bytes * bytes)) (out : res N) : verdict :=
+  let st := build_store 0 entries [] in
+  let hit := existsb (fun e : bytes * bytes => let '(a, b) := e in same_set q1 q2 a b) entries in
+  V (match store_get (pair_key q1 q2) st, out with
+     | Some i, Ok j => i =? j
+     | None, Err EStd => true
+     | _, _ => false
+     end)
+    (match out with
+     | Ok j => let '(a, b) := entry_assets entries j in same_set q1 q2 a b
+     | Err _ => negb hit
+     end)
+    (existsb (fun e : bytes * bytes => let '(a, b) := e in kf_key_collision q1 q2 a b) entries)
+    true.
